@@ -1,0 +1,29 @@
+//go:build verif
+
+package leader
+
+import "github.com/nats-io/nats.go"
+
+// Verification hooks. Compiled only with the build tag "verif"; the default
+// build uses verif_off.go, where verifYield is an empty function.
+
+// VerifYield, when set, is called at the yield sites marked verifYield(...)
+// in this package. It must be set before any election is started.
+var VerifYield func(site string)
+
+func verifYield(site string) {
+	if f := VerifYield; f != nil {
+		f(site)
+	}
+}
+
+// VerifNewKeyValue wraps a nats.KeyValue in the package's real (unexported)
+// adapter, so that a harness can run the adapter code over a simulated bucket.
+func VerifNewKeyValue(kv nats.KeyValue) KeyValue {
+	return &natsKeyValueAdapter{kv: kv}
+}
+
+// VerifNewWatcher wraps a nats.KeyWatcher in the package's real watcher adapter.
+func VerifNewWatcher(w nats.KeyWatcher) Watcher {
+	return &natsWatcherAdapter{watcher: w}
+}
